@@ -24,6 +24,7 @@ inductive PV where
   | bool (b : Bool)
   | none
   | unbound
+  | arr (l : List PV)     -- a NumPy array: 1-D when the items are scalars, 2-D when they are arrays
 deriving Repr, Inhabited
 
 abbrev RV := R PV
@@ -104,6 +105,7 @@ def PV.eqb : PV → PV → Bool
   | .bool a, .int b => (if a then 1 else 0) == b
   | .list a, .list b => PV.eqbList a b
   | .tup a, .tup b => PV.eqbList a b
+  | .arr a, .arr b => PV.eqbList a b
   | .none, .none => true
   | _, _ => false
 def PV.eqbList : List PV → List PV → Bool
@@ -121,6 +123,7 @@ def PV.truthy : PV → Bool
   | .bool b => b
   | .none => false
   | .unbound => false
+  | .arr l => !l.isEmpty      -- (NumPy raises for more than one element; conditions on arrays are outside the fragment)
 
 /-- bind of the exception monad, spelled out so that `simp` sees through it. -/
 @[inline] def bnd {α β} (m : R α) (k : α → R β) : R β :=
@@ -278,6 +281,7 @@ def pyIter (v : PV) : R (List PV) :=
   | .list l => .ok l
   | .tup l => .ok l
   | .str s => .ok (s.map fun c => .str [c])
+  | .arr l => .ok l
   | _ => .error .typeError
 
 def pyList (v : PV) : RV := (pyIter v).map .list
@@ -287,6 +291,7 @@ def pyLen (v : PV) : RV :=
   | .list l => .ok (.int l.length)
   | .tup l => .ok (.int l.length)
   | .str s => .ok (.int s.length)
+  | .arr l => .ok (.int l.length)
   | _ => .error .typeError
 
 /-- `range(a, b, s)` as an eager list. -/
@@ -383,6 +388,9 @@ def pyIndex (v i : PV) : RV :=
     | .str s => match normIndex s.length i with
                 | some j => .ok (.str [s.getD j 'A'])
                 | Option.none => .error .indexError
+    | .arr l => match normIndex l.length i with
+                | some j => .ok (l.getD j .none)
+                | Option.none => .error .indexError
     | _ => .error .typeError
 
 /-- an optional slice bound: `None` or an int. -/
@@ -408,6 +416,10 @@ def pySliceV (v a b : PV) : RV :=
               | .ok a, .ok b => .ok (.str (pySlice l a b))
               | .error e, _ => .error e
               | _, .error e => .error e
+  | .arr l => match boundOr a 0, boundOr b l.length with
+              | .ok a, .ok b => .ok (.arr (pySlice l a b))
+              | .error e, _ => .error e
+              | _, .error e => .error e
   | _ => .error .typeError
 
 /-- `v[::-1]`. -/
@@ -416,6 +428,7 @@ def pyReverse (v : PV) : RV :=
   | .list l => .ok (.list l.reverse)
   | .tup l => .ok (.tup l.reverse)
   | .str l => .ok (.str l.reverse)
+  | .arr l => .ok (.arr l.reverse)
   | _ => .error .typeError
 
 /-- `v[i] = x` on a list, as a new list. -/
@@ -424,6 +437,10 @@ def pySetItem (v i x : PV) : RV :=
   | .list l, some i => match normIndex l.length i with
                        | some j => .ok (.list (l.set j x))
                        | Option.none => .error .indexError
+  | .arr l, some i => match normIndex l.length i, x.asInt? with
+                      | some j, some n => .ok (.arr (l.set j (.int n)))     -- integer arrays only
+                      | Option.none, _ => .error .indexError
+                      | _, Option.none => .error .typeError
   | _, _ => .error .typeError
 
 /-- `v.insert(i, x)` on a list, as a new list (the position clamps like a slice bound). -/
@@ -453,5 +470,161 @@ def pyTypeIs (v : PV) (name : String) : Bool :=
   | .list _, "list" => true
   | .tup _, "tuple" => true
   | _, _ => false
+
+/-! ## more built-ins -/
+
+/-- `a ** b` on ints with a non-negative exponent (a negative exponent gives a float in Python:
+outside the fragment, reported as `PyErr.other`). -/
+def pyPow (a b : PV) : RV :=
+  match a.asInt?, b.asInt? with
+  | some x, some y => if y < 0 then .error .other else .ok (.int (x ^ y.toNat))
+  | _, _ => .error .typeError
+
+/-- `x is None` / `x is not None` (identity is only ever tested against `None` in the fragment). -/
+def pyIsNone (v : PV) : Bool :=
+  match v with
+  | .none => true
+  | _ => false
+
+/-- first position of `x` in a list (by `==`). -/
+def findIdxEq (x : PV) : List PV → Nat → Option Nat
+  | [], _ => Option.none
+  | y :: ys, i => if PV.eqb y x then some i else findIdxEq x ys (i + 1)
+
+/-- `container.index(x)`: lists and tuples by `==`, strings by sub-string search (`ValueError` when absent). -/
+def pyIndexOf (c x : PV) : RV :=
+  match c with
+  | .str _ => pyStrIndex c x
+  | .list l => match findIdxEq x l 0 with
+               | some i => .ok (.int i)
+               | Option.none => .error .valueError
+  | .tup l => match findIdxEq x l 0 with
+              | some i => .ok (.int i)
+              | Option.none => .error .valueError
+  | _ => .error .other
+
+/-- `x in container`. -/
+def pyIn (x c : PV) : R Bool :=
+  match c, x with
+  | .list l, _ => .ok ((findIdxEq x l 0).isSome)
+  | .tup l, _ => .ok ((findIdxEq x l 0).isSome)
+  | .str s, .str p => .ok ((findSub p s 0).isSome)
+  | .str _, _ => .error .typeError
+  | _, _ => .error .typeError
+
+/-! ## NumPy (integer and boolean arrays, one or two dimensions)
+
+NumPy scalars are modelled as plain ints/bools (`int64` wrap-around is outside the fragment). -/
+
+/-- elementwise binary operation between an array and a scalar / an array of the same length. -/
+def arrZip (f : PV → PV → RV) : List PV → List PV → R (List PV)
+  | [], [] => .ok []
+  | x :: xs, y :: ys =>
+    match f x y with
+    | .error e => .error e
+    | .ok z => match arrZip f xs ys with
+               | .error e => .error e
+               | .ok zs => .ok (z :: zs)
+  | _, _ => .error .valueError      -- shapes that do not broadcast
+
+def arrBroadcast (f : PV → PV → RV) (a b : PV) : RV :=
+  match a, b with
+  | .arr xs, .arr ys => (arrZip f xs ys).map .arr
+  | .arr xs, y => (mapM' (fun x => f x y) xs).map .arr
+  | x, .arr ys => (mapM' (fun y => f x y) ys).map .arr
+  | x, y => f x y
+
+def liftCmp (c : PV → PV → R Bool) (a b : PV) : RV := (c a b).map .bool
+
+/-- `a - b`, `a + b`, `a * b` with NumPy broadcasting when an operand is an array. -/
+def npSub (a b : PV) : RV := arrBroadcast pySub a b
+def npAdd (a b : PV) : RV :=
+  match a, b with
+  | .arr _, _ => arrBroadcast pyAdd a b
+  | _, .arr _ => arrBroadcast pyAdd a b
+  | _, _ => pyAdd a b
+def npMul (a b : PV) : RV :=
+  match a, b with
+  | .arr _, _ => arrBroadcast pyMul a b
+  | _, .arr _ => arrBroadcast pyMul a b
+  | _, _ => pyMul a b
+
+/-- comparisons: elementwise (an array of bools) when an operand is an array, otherwise Python's. -/
+def npCmp (c : PV → PV → R Bool) (a b : PV) : RV :=
+  match a, b with
+  | .arr _, _ => arrBroadcast (liftCmp c) a b
+  | _, .arr _ => arrBroadcast (liftCmp c) a b
+  | _, _ => (c a b).map .bool
+
+/-- indices of the truthy entries. -/
+def trueIdx : List PV → Nat → List PV
+  | [], _ => []
+  | x :: xs, i => if x.truthy then .int i :: trueIdx xs (i + 1) else trueIdx xs (i + 1)
+
+/-- `numpy.where(cond)` for a one-dimensional array: a 1-tuple holding the index array. -/
+def npWhere (c : PV) : RV :=
+  match c with
+  | .arr l => .ok (.tup [.arr (trueIdx l 0)])
+  | _ => .error .other
+
+/-- stable ascending argsort of a short integer array (NumPy sorts rows of fewer than 17 items by
+insertion, which is stable). -/
+def npArgsort (v : PV) : RV :=
+  match v with
+  | .arr l =>
+    match l.mapM PV.asInt? with
+    | some ks => .ok (.arr ((Dsw.argsort ks).map fun (i : Nat) => .int (i : Int)))
+    | Option.none => .error .typeError
+  | _ => .error .other
+
+/-- `numpy.sum` of a one-dimensional integer/boolean array. -/
+def npSum (v : PV) : RV :=
+  match v with
+  | .arr l => match l.mapM PV.asInt? with
+              | some ks => .ok (.int (ks.foldl (· + ·) 0))
+              | Option.none => .error .typeError
+  | .list l => match l.mapM PV.asInt? with
+               | some ks => .ok (.int (ks.foldl (· + ·) 0))
+               | Option.none => .error .typeError
+  | _ => .error .other
+
+/-- `numpy.array(x, dtype=int)`: a (nested) list of ints becomes an array. -/
+def npArrayItem (v : PV) : RV :=
+  match v with
+  | .list l => .ok (.arr l)
+  | .tup l => .ok (.arr l)
+  | .arr l => .ok (.arr l)
+  | .int i => .ok (.int i)
+  | .bool b => .ok (.int (if b then 1 else 0))
+  | _ => .error .other
+
+def npArray (v : PV) : RV :=
+  match v with
+  | .list l => (mapM' npArrayItem l).map .arr
+  | .tup l => (mapM' npArrayItem l).map .arr
+  | .arr l => .ok (.arr l)
+  | _ => .error .other
+
+/-- `numpy.zeros(shape=(n,), dtype=int)`. -/
+def npZeros (shape : PV) : RV :=
+  match shape with
+  | .tup [.int n] => if n < 0 then .error .valueError else .ok (.arr (List.replicate n.toNat (.int 0)))
+  | .int n => if n < 0 then .error .valueError else .ok (.arr (List.replicate n.toNat (.int 0)))
+  | _ => .error .other
+
+/-- `a[i, j]`: row `i`, then `j` is an int (one entry) or an index array (gather). -/
+def npIndex2 (a i j : PV) : RV :=
+  match pyIndex a i with
+  | .error e => .error e
+  | .ok row =>
+    match j with
+    | .arr js => (mapM' (fun k => pyIndex row k) js).map .arr
+    | _ => pyIndex row j
+
+/-- `a[idx]` where `idx` may be an index array (gather) or an int. -/
+def npIndex (a i : PV) : RV :=
+  match a, i with
+  | .arr _, .arr js => (mapM' (fun k => pyIndex a k) js).map .arr
+  | _, _ => pyIndex a i
 
 end Dsw.Py
